@@ -107,6 +107,7 @@ func checkC06(c *Ctx) {
 	duplexStress(c, "C06")
 	alternatingReads(c, "C06")
 	gatedDecrypt(c, "C06")
+	sourceReuse(c, "C06")
 	c03Rekey(c)    // a second pair-verify on an encrypted connection (reads and writes change keys at the right moment)
 	c03Handover(c) // reads that are waiting while the first cryptographer is negotiated
 	c.SetRule("one case = one session pair with 1..20 messages; every message goes real Encrypt -> (reference wire format, model descriptors " +
